@@ -4,6 +4,7 @@ import TarpcModel.Driver.Srv
 import TarpcModel.Driver.C07
 import TarpcModel.Driver.C15Codec
 import TarpcModel.Driver.C15Stream
+import TarpcModel.Driver.C16
 import TarpcModel.Driver.C17
 import TarpcModel.Driver.C19
 import TarpcModel.Driver.C20
@@ -24,6 +25,7 @@ def familyOf (name : String) : Option Family :=
   | "c15bin" => some c15bin
   | "c15frame" => some c15frame
   | "c15e2e" => some c15e2e
+  | "c16dec" => some c16dec
   | "c17camel" => some c17camel
   | "c17svc" => some c17svc
   | "c19" => some c19
